@@ -4,7 +4,7 @@
    tmapz Quarter = quarter_map, tmapz Beat / tmapz Musical = beat_map in notated / musical mode,
    tinv = the inverse maps, on the timeline [p_first, p_last] of a part with >= 2 points.
    The same definitions are evaluated on every generated part by the correspondence check. *)
-From PV Require Import Lib.Base Model.C02 Model.C02_Hist Gen.C02_Tab Proofs.C02_lib Proofs.C02.
+From PV Require Import Lib.Base Model.C02 Model.C02_Hist Gen.C02_Tab Proofs.C02_lib Proofs.C02 Proofs.C02_hist.
 From Coq Require Import QArith.
 #[local] Open Scope Z_scope.
 
@@ -139,6 +139,106 @@ Theorem set_mus_spec : forall tab ts,
   ts_t (set_mus tab ts) = ts_t ts /\ ts_beats (set_mus tab ts) = ts_beats ts /\ ts_type (set_mus tab ts) = ts_type ts.
 Proof. exact Proofs.C02.set_mus_spec. Qed.
 Print Assumptions set_mus_spec.
+
+(* --- "all change points": the maps on the whole keypoint range [kp_min, kp_max], which contains the
+   timeline and every change point, also those before the first / after the last time point *)
+Theorem change_points_in_range : forall m p, wf p ->
+  (kp_min m p <= p_first p /\ p_last p <= kp_max m p) /\
+  (forall k q, In (k, q) (p_qs p) -> kp_min m p <= k <= kp_max m p) /\
+  (forall k f, In (k, f) (bt_table m p) -> kp_min m p <= k <= kp_max m p).
+Proof. exact Proofs.C02_hist.change_points_in_range. Qed.
+Print Assumptions change_points_in_range.
+
+Theorem map_total_all : forall m p, wf p -> forall t, kp_min m p <= t <= kp_max m p ->
+  exists v, tmapz m p t = Some v /\ (v == Fint m p t - pickup_shift m p)%Q.
+Proof. exact Proofs.C02_hist.tmap_value_all. Qed.
+Print Assumptions map_total_all.
+
+Theorem bmap_exact_all : forall m p, wf p -> forall a b va vb, kp_min m p <= a <= b /\ b <= kp_max m p ->
+  tmapz m p a = Some va -> tmapz m p b = Some vb -> (vb - va == beats_between m p a b)%Q.
+Proof. exact Proofs.C02_hist.tmap_diff_all. Qed.
+Print Assumptions bmap_exact_all.
+
+Theorem map_strict_all : forall m p, wf p -> forall a b va vb, kp_min m p <= a < b /\ b <= kp_max m p ->
+  tmapz m p a = Some va -> tmapz m p b = Some vb -> (va < vb)%Q.
+Proof. exact Proofs.C02_hist.tmap_strict_all. Qed.
+Print Assumptions map_strict_all.
+
+(* before the smallest keypoint the maps are undefined (nan) *)
+Theorem map_undefined_before : forall m p, wf p -> forall t, t < kp_min m p -> tmapz m p t = None.
+Proof. exact Proofs.C02_hist.tmap_outside. Qed.
+Print Assumptions map_undefined_before.
+
+(* --- the part as the public API builds it (Model/C02_Hist.v): set_quarter_duration in ANY call order.
+   The change table stays sorted ... *)
+Theorem setqd_sorted : forall t q tbl, keys_incr tbl -> keys_incr (setqd t q tbl).
+Proof. exact Proofs.C02_hist.setqd_sorted. Qed.
+Print Assumptions setqd_sorted.
+
+(* ... after set_quarter_duration(t, q) the value q is in force from t up to the next recorded change,
+   and what was in force anywhere else is unchanged (whether or not the call was recorded) ... *)
+Theorem setqd_step : forall t q tbl s d, keys_incr tbl ->
+  prev_lookup (setqd t q tbl) s d = if (t <=? s) && before_next t tbl s then q else prev_lookup tbl s d.
+Proof. exact Proofs.C02_hist.setqd_lookup. Qed.
+Print Assumptions setqd_step.
+
+Theorem before_next_spec : forall t s tbl, keys_incr tbl ->
+  (before_next t tbl s = true <-> forall k v, In (k, v) tbl -> t < k -> s < k).
+Proof. exact Proofs.C02_hist.before_next_spec. Qed.
+Print Assumptions before_next_spec.
+
+(* ... which is what the plain change table (last write per time wins, dict_set) gives ... *)
+Theorem setqd_last_write_wins : forall t q tbl s d, keys_incr tbl ->
+  prev_lookup (setqd t q tbl) s d = prev_lookup (dict_set t q tbl) s d.
+Proof. exact Proofs.C02_hist.setqd_as_dict. Qed.
+Print Assumptions setqd_last_write_wins.
+
+(* ... no change time is lost and at most t is added *)
+Theorem setqd_change_times : forall t q tbl k v,
+  (In (k, v) (setqd t q tbl) -> (k = t /\ v = q) \/ In (k, v) tbl) /\
+  (In (k, v) tbl -> exists v', In (k, v') (setqd t q tbl)).
+Proof. exact Proofs.C02_hist.setqd_change_times. Qed.
+Print Assumptions setqd_change_times.
+
+(* entering the changes in time order, each value different from the one before, leaves the list itself *)
+Theorem setq_time_order : forall q0 l, chain_changes 0 q0 l ->
+  fold_left (fun tbl w => setqd (fst w) (snd w) tbl) l [(0, q0)] = (0, q0) :: l.
+Proof. exact Proofs.C02_hist.setq_time_order. Qed.
+Print Assumptions setq_time_order.
+
+(* every history of set_quarter_duration / add(TimeSignature) / musical-beat switches, in any order
+   (non-negative times, positive values, one signature per time), leaves a well-formed part: all map
+   theorems above apply to it; and division 0 is its smallest keypoint *)
+Theorem hist_wf : forall first last q0 h m1, 0 < q0 -> hist_ok h -> first < last -> wf (hpart first last q0 h m1).
+Proof. exact Proofs.C02_hist.hist_wf. Qed.
+Print Assumptions hist_wf.
+
+Theorem hist_kp_min : forall m first last q0 h m1, 0 < q0 -> hist_ok h -> 0 <= first < last ->
+  kp_min m (hpart first last q0 h m1) = 0.
+Proof. exact Proofs.C02_hist.hist_kp_min. Qed.
+Print Assumptions hist_kp_min.
+
+(* for instance: exactness and the inverse for the part any history leaves *)
+Theorem hist_maps : forall first last q0 h m1, 0 < q0 -> hist_ok h -> 0 <= first < last ->
+  let p := hpart first last q0 h m1 in let m := hmode q0 h in
+  (forall a b va vb, 0 <= a <= b /\ b <= kp_max Quarter p ->
+     tmapz Quarter p a = Some va -> tmapz Quarter p b = Some vb -> (vb - va == quarters_between p a b)%Q) /\
+  (forall a b va vb, 0 <= a <= b /\ b <= kp_max m p ->
+     tmapz m p a = Some va -> tmapz m p b = Some vb -> (vb - va == beats_between m p a b)%Q) /\
+  (forall (t v : Q), tmap m p t = Some v -> exists t', tinv m p v = Some t' /\ (t' == t)%Q) /\
+  (forall (t v : Q), tmap Quarter p t = Some v -> exists t', tinv Quarter p v = Some t' /\ (t' == t)%Q).
+Proof. exact Proofs.C02_hist.hist_maps. Qed.
+Print Assumptions hist_maps.
+
+(* hypotheses are satisfiable: the later change entered first and the earlier one with the same value
+   afterwards, a change re-set twice, a signature added after the musical beats were set *)
+Theorem example_history : hist_ok ex_hist /\
+  h_qs (hrun 4 ex_hist) = [(0, 4); (16, 8); (32, 8)] /\
+  map ts_mus (h_tss (hrun 4 ex_hist)) = [3; 5] /\ hmode 4 ex_hist = Musical /\
+  (exists v, tmapz Quarter (hpart 0 48 4 ex_hist None) 48 = Some v /\ (v == 8)%Q) /\
+  (exists v, tmapz (hmode 4 ex_hist) (hpart 0 48 4 ex_hist None) 48 = Some v /\ (v == 11)%Q).
+Proof. exact (conj ex_hist_ok ex_hist_values). Qed.
+Print Assumptions example_history.
 
 (* hypotheses are satisfiable: two division changes, a change of meter, a pickup of one quarter *)
 Theorem example_part : wf ex_part /\
